@@ -10,7 +10,7 @@ use std::collections::BTreeMap;
 use std::io::Write;
 use std::panic::{AssertUnwindSafe, catch_unwind};
 
-pub trait ArenaX: Allocator + std::fmt::Debug + 'static {
+pub trait ArenaX: Allocator + Clone + std::fmt::Debug + 'static {
   const SYNC: bool;
   fn snap(&self, max: usize) -> FreelistSnapshot;
   fn truncate_x(&mut self, n: usize) -> Option<std::io::Result<()>>;
@@ -171,6 +171,8 @@ fn file_rle(p: &std::path::Path) -> (u64, Value) {
 
 pub struct Inst<A: ArenaX> {
   arena: *mut A,
+  // further arena values of the same arena (Clone), newest last
+  clones: Vec<*mut A>,
   handles: BTreeMap<u32, Box<dyn AnyHandle>>,
   next_id: u32,
   file: Option<std::path::PathBuf>,
@@ -184,6 +186,7 @@ impl<A: ArenaX> Inst<A> {
   pub fn new(arena: A, file: Option<std::path::PathBuf>, backend: &str) -> Self {
     let mut me = Self {
       arena: Box::into_raw(Box::new(arena)),
+      clones: Vec::new(),
       handles: BTreeMap::new(),
       next_id: 1,
       file,
@@ -269,8 +272,16 @@ impl<A: ArenaX> Inst<A> {
     ids
   }
 
+  fn drop_clones(&mut self) {
+    while let Some(c) = self.clones.pop() {
+      unsafe { drop(Box::from_raw(c)) };
+    }
+  }
+
   fn apply_in(&mut self, op: &Value) -> Value {
-    let a = self.a();
+    // "via": "clone" = the call goes through the newest other arena value of the same arena
+    let via_clone = op.get("via").and_then(|v| v.as_str()) == Some("clone") && !self.clones.is_empty();
+    let a: &'static A = if via_clone { unsafe { &**self.clones.last().unwrap() } } else { self.a() };
     let k = op["k"].as_str().unwrap();
     let owned = op["o"].as_bool().unwrap_or(false);
     let nofill = op["nofill"].as_bool().unwrap_or(false);
@@ -356,6 +367,26 @@ impl<A: ArenaX> Inst<A> {
           }
         }
       }
+      "mkclone" => {
+        let c = self.a().clone();
+        self.clones.push(Box::into_raw(Box::new(c)));
+        json!({"k": "ok"})
+      }
+      "dropclone" => match self.clones.pop() {
+        Some(c) => {
+          unsafe { drop(Box::from_raw(c)) };
+          json!({"k": "ok"})
+        }
+        None => json!({"k": "skip"}),
+      },
+      // what the newest other arena value reports (pure reads: header through the shared memory, cached fields)
+      "cobs" => match self.clones.last() {
+        Some(c) => {
+          let c: &A = unsafe { &**c };
+          json!({"k": "ok", "cap": sat(c.capacity() as u64), "rem": sat(c.remaining() as u64), "alloc": sat(c.allocated() as u64)})
+        }
+        None => json!({"k": "skip"}),
+      },
       "discard" => match a.discard_freelist() {
         Ok(v) => json!({"k": "ok", "v": sat(v as u64)}),
         Err(e) => json!({"k": err_kind(&e)}),
@@ -418,6 +449,7 @@ impl<A: ArenaX> Inst<A> {
         if op["flush"].as_bool().unwrap_or(false) {
           let _ = a.flush();
         }
+        self.drop_clones();
         unsafe { drop(Box::from_raw(self.arena)) };
         self.closed = true;
         let _ = take_api();
@@ -554,6 +586,7 @@ impl<A: ArenaX> Driven for Inst<A> {
         std::mem::forget(h);
       }
     }
+    self.drop_clones();
     if !self.closed {
       unsafe {
         drop(Box::from_raw(self.arena));
